@@ -42,13 +42,14 @@ CHECKS = {
             "same-depth distance is r*acos of the spherical law of cosines for every pair; spherical round trip (atan2 law as "
             "premise). Not a theorem: optimality of the Newton closest point (dense-scan search). Tie: kernels called directly "
             "through wbprobe vs the extracted model, bit-for-bit, the kd node array taken from the implementation and checked "
-            "against kd_inv.",
+            "against kd_inv; the polygon scan and the kd search are also evaluated inside Coq on primitive floats (NumF.v) and "
+            "compared with the extracted model (cross-check of extraction).",
             "proof over Reals of kd search / winding number / great circle / Bezier identities + bit-exact kernel correspondence + brute-force oracles", "4 C19"),
     "C11": ("Theorems (Properties_C11.v, over exact reals): the interpolated depth is the barycentric combination of the nodal "
             "values; bounded by the smallest/largest nodal value inside a triangle; nodal at the vertices; affine data are "
             "reproduced by every non-degenerate triangle (whatever triangulation); merging a listed point sets its value and "
-            "keeps all others; corner override is REFUTED for points with a zero coordinate (known finding D8, kept with a "
-            "kernel-checked witness). Tie: Surface::local_value on the implementation's own triangle list / kd array vs the "
+            "keeps all others; over the reals no point of a closed (clockwise) triangle is missed by the point-in-triangle test; corner "
+            "override is REFUTED for points with a zero coordinate (known finding D8, kept with a kernel-checked witness). Tie: Surface::local_value on the implementation's own triangle list / kd array vs the "
             "model bit-for-bit, merged node set vs the triangulation's vertex set. Known findings D8, D19 are reported as such.",
             "proof over Reals of barycentric interpolation + merge lemmas + bit-exact correspondence with Delaunay/kd data from the implementation", "4 C11"),
     "C14": ("Theorems (Properties_C14.v, axiom-free): a query neither reads nor changes mutable state (no random models), so after "
